@@ -5,6 +5,7 @@ Properties served: C03, C07 (Chapter 11 part), C08, C09, C12, C13, C14 (through 
 pinksheet part), C19."""
 import os, json, tempfile
 from ..core import hexb, run_line_impl, run_driver, SPECDRIVER, ADAPTERS, guarded, parse_val
+from .. import core
 from ..runner import Failure
 from .. import gen
 from ..gen import ClassGen
@@ -410,14 +411,19 @@ def ch11_unpack_lines(ctx, packed, cls="Chapter11"):
 def _ch11_obj(cls, f, p):
     import AcraNetwork.IRIG106.Chapter11 as ch11
     o = ADAPTERS[cls].ctor()
-    for k, v in f.items():
-        if k == "_via_decode":
-            continue
-        if k == "ptptime":
+    # `_order` (a permutation seed): the attributes are plain data, so the order in which a caller assigns them —
+    # payload before or after the flags, the time stamp first or last — must not matter
+    keys = [k for k in f if k not in ("_via_decode", "_order")] + ["payload"]
+    if f.get("_order") is not None:
+        core.Rng(f["_order"]).shuffle(keys)
+    for k in keys:
+        if k == "payload":
+            o.payload = p
+        elif k == "ptptime":
+            v = f[k]
             o.ptptime = ch11.PTPTime(v["seconds"], v["nanoseconds"])
         else:
-            setattr(o, k, v)
-    o.payload = p
+            setattr(o, k, f[k])
     if f.get("_via_decode"):
         # the object a reader would hold: decoded from the packet's own bytes (checksum / time-format flag bits
         # and all), then handed to a writer
@@ -459,6 +465,8 @@ def check_ch11_layout(args):
     if st[0] != "ok":
         return ("%s.unpack raised (%s) on the encoding of a well-formed packet %r" % (cls, st[1], f), dict(tags, check="roundtrip"))
     for k, v in f.items():
+        if k in ("_order", "_via_decode"):
+            continue
         got = getattr(q, k)
         if k == "ptptime":
             got = {"seconds": got.seconds, "nanoseconds": got.nanoseconds}
@@ -503,6 +511,8 @@ def ch11_oracle_cases(ctx, cls="Chapter11"):
         p = f.pop("payload")
         if i % 13 == 0:
             p = rng.bytes_(rng.randrange(0, ctx.scale(2000, 9000)))
+        if i % 3 == 2:
+            f["_order"] = rng.getrandbits(16)
         yield {"cls": cls, "fields": f, "payload": p.hex()}
 
 # =================================================================================== PTPTime / RTCTime
@@ -702,7 +712,8 @@ ORACLES["checksum_helpers"] = check_checksum_helpers
 SYNC = b"\x25\xeb"
 
 JUNK_LENGTHS = [0, 1, 2, 3, 4, 5, 6, 7, 8, 9, 10, 15, 16, 17, 23, 24, 25, 31, 32, 33, 40] + list(range(0, 41)) + \
-    [63, 64, 65, 127, 128, 129, 255, 256, 257, 511, 512, 513, 1023, 1024, 1025, 1026, 1538, 2051]
+    [63, 64, 65, 127, 128, 129, 255, 256, 257, 511, 512, 513, 1023, 1024, 1025, 1026, 1538, 2051] + \
+    [2047, 2048, 2049, 4094, 4095, 4096, 4097, 4098, 8191, 8192, 8193, 8194, 16383, 16384, 16385]   # either side of block sizes
 
 def junk(rng, n, tail25=False):
     """n bytes that do not contain the sync pattern 25 EB (optionally ending in 0x25); 0x25 not followed
@@ -1139,9 +1150,25 @@ def ptp_pairs(ctx):
         out.append((a, b))
     return out
 
+def pinksheet_rollovers(rng, n):
+    """(seconds, nanoseconds) either side of a roll-over of the 48-bit count of 100 ns units (every 2^48 / 10^7 s =
+    325.8 days; 152 of them fit below 2^32 seconds), and the largest nanosecond values within such a second"""
+    out = []
+    ks = [1, 2, 62, 152] + [rng.randrange(1, 153) for _ in range(n)]
+    for k in ks:
+        t = k * 2 ** 48                        # in 100 ns units
+        s, r = divmod(t, 10 ** 7)
+        for ns in (r * 100 - 100, r * 100 - 1, r * 100, r * 100 + 99, r * 100 + 100, 0, 999999999, 999999900):
+            if 0 <= ns < 10 ** 9 and s < 2 ** 32:
+                out.append((s, ns))
+    return out
+
 def corr_C15(ctx):
     rng = ctx.rng
     L = []
+    for (s, n) in pinksheet_rollovers(rng, ctx.scale(6, 150)):
+        L.append(gen.F("ptp.pinksheet", str(s), str(n)))
+        L.append(gen.H("PTPTime", ["set seconds %d" % s, "set nanoseconds %d" % n, "pack", "obs", "call to_pinksheet_rtc"]))
     for (a, b) in ptp_pairs(ctx):
         args = [str(a[0]), str(a[1]), str(b[0]), str(b[1])]
         for op in ("add", "sub", "lt", "le", "gt", "ge", "eq", "ne"):
@@ -1223,8 +1250,10 @@ def oracles_C15(ctx, hints):
         if w:
             _first(fails, Failure("ptp_pair", args, w, {"class": "PTPTime", "check": "order_arith"}))
             break
+    cases = [{"s": s, "n": ns, "c": rng.boundary(48)} for (s, ns) in pinksheet_rollovers(rng, ctx.scale(10, 150))]
     for i in range(ctx.scale(300, 20000)):
-        args = {"s": rng.boundary(32), "n": rng.choice([0, 1, 999999999, rng.randrange(0, 10 ** 9), rng.boundary(32)]), "c": rng.boundary(48)}
+        cases.append({"s": rng.boundary(32), "n": rng.choice([0, 1, 999999999, rng.randrange(0, 10 ** 9), rng.boundary(32)]), "c": rng.boundary(48)})
+    for args in cases:
         n += 1
         w = check_time_codec(args)
         if w:
